@@ -7,7 +7,8 @@
 import PurlModel.Purl
 namespace Purl
 
-/-- the kinds of JSON value `deserialize_str` can meet -/
+/-- the kinds of value of serde's data model `deserialize_str` can meet (JSON has the first six; other formats and
+`serde::de::value` also have bytes and chars) -/
 inductive Json where
   | null
   | bool (b : Bool)
@@ -15,6 +16,8 @@ inductive Json where
   | str (s : Str)
   | arr
   | obj
+  | bytes (b : Str)     -- a byte string (even one that is valid UTF-8 and spells a PURL) is not a string value
+  | char (c : Char)
   deriving Repr, DecidableEq
 
 /-- serde error: the PURL's own error passed through `Error::custom`, or a wrong value kind -/
